@@ -7069,6 +7069,10 @@ size_t ZSTD_compressSequences(ZSTD_CCtx* cctx,
     DEBUGLOG(4, "ZSTD_compressSequences (dstCapacity=%zu)", dstCapacity);
     assert(cctx != NULL);
     FORWARD_IF_ERROR(ZSTD_CCtx_init_compressStream2(cctx, ZSTD_e_end, srcSize), "CCtx initialization failed");
+    /* With workers, the initialization above prepared the multi-threaded context only :
+     * the block state of this context, which is what gets used below, was not started. */
+    RETURN_ERROR_IF(cctx->appliedParams.nbWorkers >= 1, parameter_combination_unsupported,
+                    "ZSTD_compressSequences() is single-threaded : not compatible with nbWorkers >= 1");
     /* Begin writing output, starting with frame header */
     frameHeaderSize = ZSTD_writeFrameHeader(op, dstCapacity, &cctx->appliedParams, srcSize, cctx->dictID);
     FORWARD_IF_ERROR(frameHeaderSize, "ZSTD_writeFrameHeader failed");
